@@ -182,6 +182,28 @@ fn eval_direct(e: &Sexp, cols: &[ArrayImpl], n: usize) -> Result<ArrayImpl, Stri
                     let a = eval_direct(&l[2], cols, n)?;
                     a.cast(&parse_ty(l[1].as_atom().unwrap())).map_err(er)
                 }
+                ("like", 3) => {
+                    let a = eval_direct(&l[1], cols, n)?;
+                    let DataValue::String(p) = parse_const(l[2].as_atom().unwrap()) else { panic!("like pattern") };
+                    a.like(&p).map_err(er)
+                }
+                ("repeat", 3) => {
+                    let a = eval_direct(&l[1], cols, n)?;
+                    let b = eval_direct(&l[2], cols, n)?;
+                    a.repeat(&b).map_err(er)
+                }
+                ("replace", 4) => {
+                    let a = eval_direct(&l[1], cols, n)?;
+                    let DataValue::String(f) = parse_const(l[2].as_atom().unwrap()) else { panic!("replace from") };
+                    let DataValue::String(t) = parse_const(l[3].as_atom().unwrap()) else { panic!("replace to") };
+                    a.replace(&f, &t).map_err(er)
+                }
+                ("substring", 4) => {
+                    let a = eval_direct(&l[1], cols, n)?;
+                    let b = eval_direct(&l[2], cols, n)?;
+                    let c = eval_direct(&l[3], cols, n)?;
+                    a.substring(&b, &c).map_err(er)
+                }
                 ("if", 4) => {
                     let c = eval_direct(&l[1], cols, n)?;
                     let t = eval_direct(&l[2], cols, n)?;
@@ -250,6 +272,28 @@ fn to_recexpr(e: &Sexp, out: &mut RecExpr, cols: &[Id]) -> Id {
                     let ty = out.add(Expr::Type(parse_ty(l[1].as_atom().unwrap())));
                     let a = to_recexpr(&l[2], out, cols);
                     out.add(Expr::Cast([ty, a]))
+                }
+                ("like", 3) => {
+                    let a = to_recexpr(&l[1], out, cols);
+                    let p = out.add(Expr::Constant(parse_const(l[2].as_atom().unwrap())));
+                    out.add(Expr::Like([a, p]))
+                }
+                ("repeat", 3) => {
+                    let a = to_recexpr(&l[1], out, cols);
+                    let b = to_recexpr(&l[2], out, cols);
+                    out.add(Expr::Repeat([a, b]))
+                }
+                ("replace", 4) => {
+                    let a = to_recexpr(&l[1], out, cols);
+                    let f = out.add(Expr::Constant(parse_const(l[2].as_atom().unwrap())));
+                    let t = out.add(Expr::Constant(parse_const(l[3].as_atom().unwrap())));
+                    out.add(Expr::Replace([a, f, t]))
+                }
+                ("substring", 4) => {
+                    let a = to_recexpr(&l[1], out, cols);
+                    let b = to_recexpr(&l[2], out, cols);
+                    let c = to_recexpr(&l[3], out, cols);
+                    out.add(Expr::Substring([a, b, c]))
                 }
                 ("if", 4) => {
                     let c = to_recexpr(&l[1], out, cols);
@@ -442,7 +486,7 @@ impl Gen {
         }
     }
     fn string(&mut self) -> String {
-        (*self.r.pick(&["", "a", "ab", "b", "A", "é", "1", "-5", "true", "false", "+7", " 1", "32768", "99999999999", "abc"])).to_string()
+        (*self.r.pick(&["", "a", "ab", "b", "A", "é", "1", "-5", "true", "false", "+7", " 1", "32768", "99999999999", "abc", "a\nb", "axc", "a.c", "abab"])).to_string()
     }
     fn arr(&mut self, ty: &str, n: usize) -> String {
         let null_pct = *self.r.pick(&[0u64, 10, 30, 50, 100]);
@@ -457,6 +501,23 @@ impl Gen {
                 _ => (if clean { 0 } else { self.int(ty) }).to_string(),
             };
             s += &format!(" {}{}", if valid { "v" } else { "n" }, raw);
+        }
+        s + ")"
+    }
+    fn like_pat(&mut self) -> String {
+        hex(self.r.pick(&["a%", "%b%", "a_c", "a.c", "%", "", "a(", "_", "ab", "a_b", "%c", "a%b", "___", "%.%"]).as_bytes())
+    }
+    fn small_count(&mut self) -> i64 {
+        *self.r.pick(&[-1i64, 0, 1, 2, 3])
+    }
+    /// an i32 array for `repeat` counts: small raw values everywhere (also under NULL: the
+    /// kernel repeats on the raw value of every slot, a large one would exhaust memory)
+    fn count_arr(&mut self, n: usize) -> String {
+        let null_pct = *self.r.pick(&[0u64, 10, 50]);
+        let mut s = String::from("(i32");
+        for _ in 0..n {
+            let valid = !self.r.chance(null_pct, 100);
+            s += &format!(" {}{}", if valid { "v" } else { "n" }, self.small_count());
         }
         s + ")"
     }
@@ -488,7 +549,8 @@ impl Gen {
         }
         let d = depth - 1;
         match ty {
-            "bool" => match self.r.below(10) {
+            "bool" => match self.r.below(11) {
+                10 => format!("(like {} s:{})", self.expr("str", cols, d), self.like_pat()),
                 0 | 1 | 2 => {
                     let t = self.int_ty();
                     let t2 = if self.r.chance(1, 3) { self.int_ty() } else { t };
@@ -513,7 +575,14 @@ impl Gen {
                     format!("(in {} (list {}))", self.expr(t, cols, d), items.join(" "))
                 }
             },
-            "str" => match self.r.below(3) {
+            "str" => match self.r.below(6) {
+                3 => format!("(substring {} {} {})", self.expr("str", cols, d), self.expr("i32", cols, d), self.expr("i32", cols, d)),
+                4 => {
+                    let f = hex(self.r.pick(&["a", "", "ab", "b", "x"]).as_bytes());
+                    let t = hex(self.r.pick(&["", "z", "ab", "aa"]).as_bytes());
+                    format!("(replace {} s:{f} s:{t})", self.expr("str", cols, d))
+                }
+                5 => format!("(repeat {} i32:{})", self.expr("str", cols, d), self.small_count()),
                 0 => format!("(|| {} {})", self.expr("str", cols, d), self.expr("str", cols, d)),
                 1 => {
                     let t = *self.r.pick(&["bool", "i32", "i64", "i16"]);
@@ -548,7 +617,21 @@ fn gen_request(g: &mut Gen) -> String {
         // kernel request: one operator directly over columns
         let it = g.int_ty();
         let it2 = g.int_ty();
-        let (e, tys): (String, Vec<&str>) = match g.r.below(16) {
+        let which = g.r.below(20);
+        if which >= 16 {
+            // string kernels
+            return match which {
+                16 => format!("(k {n} (like #0 s:{}) {})", g.like_pat(), g.arr("str", n)),
+                17 => format!("(k {n} (substring #0 #1 #2) {} {} {})", g.arr("str", n), g.arr("i32", n), g.arr("i32", n)),
+                18 => {
+                    let f = hex(g.r.pick(&["a", "", "ab", "b", "x"]).as_bytes());
+                    let t = hex(g.r.pick(&["", "z", "ab", "aa"]).as_bytes());
+                    format!("(k {n} (replace #0 s:{f} s:{t}) {})", g.arr("str", n))
+                }
+                _ => format!("(k {n} (repeat #0 #1) {} {})", g.arr("str", n), g.count_arr(n)),
+            };
+        }
+        let (e, tys): (String, Vec<&str>) = match which {
             0..=3 => (format!("({} #0 #1)", g.r.pick(&["+", "-", "*", "/", "%"])), vec![it, it2]),
             4 | 5 => (format!("({} #0 #1)", g.r.pick(&["=", "<>", ">", "<", ">=", "<="])), vec![it, it2]),
             6 => {
